@@ -972,7 +972,10 @@ class Program:
         from .known_names import KNOWN_CLASSES, KNOWN_FUNCTIONS
 
         real = {name: m.tree for name, m in self.modules.items() if not name.endswith("_twzsa_control")}
-        self.inlined: List[str] = inline_new_helpers(real, set(KNOWN_FUNCTIONS))
+        from .inline import specialise_callbacks
+
+        spec = specialise_callbacks(real)
+        self.inlined: List[str] = spec + inline_new_helpers(real, set(KNOWN_FUNCTIONS))
         if self.inlined:
             for t in real.values():
                 _module_passes(t)  # record displays / constant loops / partials that the expansion brought into place
@@ -983,6 +986,7 @@ class Program:
                 for fn_ in [n for n in ast.walk(t) if isinstance(n, (ast.FunctionDef, ast.AsyncFunctionDef))]:
                     _aliases(fn_)
                     _explaining_variables(fn_)
+                    _set_updates(fn_)
                 _Canon2().visit(t)
                 ast.fix_missing_locations(t)
                 from .inline import _fold_generated_aliases
